@@ -589,7 +589,33 @@ def _run_project(plan: dict, root: str, pdir: str, out: Outcome) -> None:
                               elem=elem_fail.get(outname)))
             else:
                 verified(sl['pos'], mode)
+        # whole-argv accounting: the slices between sentinels are blind to copies that land OUTSIDE them (a list that
+        # was extended once more, an argument of another target/language/list).  Every string this project specified
+        # for any compile/link position must occur in this edge's argv exactly as often as this edge's own positions
+        # specify it - no more, no less.  (-D spellings are subject to meson's documented de-duplication: a surplus
+        # identical copy cannot be seen there; everything else can.)
+        if ent is not None:
+            import collections
+            have = collections.Counter(ent[0])
+            want_here = collections.Counter(a for sl in slots for a in sl['args'])
+            out.count('monitor:whole_argv_accounting')
+            for a in sorted(all_my_args):
+                if have.get(a, 0) != want_here.get(a, 0):
+                    if have.get(a, 0) > want_here.get(a, 0):
+                        what = 'arg-repeated-outside-its-position' if a in want_here else 'arg-of-another-list-present'
+                    else:
+                        what = 'arg-missing'
+                    if any(v[1].get('edge_out') == outname for v in out.violations):
+                        break       # already reported by the slice comparison of this edge
+                    _violate(out, plan, f'{kind}:{ent[1]}:{what}',
+                             {'kind': kind, 'mode': ent[1], 'target': target, 'edge_out': outname, 'arg': a[:200],
+                              'times_specified_for_this_edge': want_here.get(a, 0), 'times_in_argv': have.get(a, 0),
+                              'specified_in': sorted({o_['pos'] for grp in (plan['compile'], plan['link']) for sls in grp.values()
+                                                      for o_ in sls if a in o_['args']})})
+                    break
 
+    all_my_args = {a for grp in (plan['compile'], plan['link']) for sls in grp.values() for o_ in sls for a in o_['args']
+                   if a not in ('-D', '-U', '-isystem')}
     objname = {'e1': 'e1.p/main.c.o', 's1': 'libs1.a.p/lib.c.o', 'e2': 'e2.p/main.c.o', 'x1': 'x1.p/main.cpp.o'}
     for target, slots in plan['compile'].items():
         check_slots('compile', target, objname[target], slots)
@@ -882,7 +908,7 @@ def main() -> int:
     if done < len(order):
         chk.count('projects_skipped_time_budget', len(order) - done)
 
-    for k in ('monitor:env_append_prepend_onto_outer_compared', 'monitor:test_repeat_compared', 'monitor:test_args_compared', 'monitor:env_form_string_or_list', 'monitor:env_form_dict_or_set', 'monitor:pickle_collision_group_compared', 'monitor:exe_rsp_file_checked', 'monitor:argv_compared', 'monitor:test_argv_compared', 'monitor:elem_roundtrip', 'monitor:exe_pickle_checked',
+    for k in ('monitor:whole_argv_accounting', 'monitor:env_append_prepend_onto_outer_compared', 'monitor:test_repeat_compared', 'monitor:test_args_compared', 'monitor:env_form_string_or_list', 'monitor:env_form_dict_or_set', 'monitor:pickle_collision_group_compared', 'monitor:exe_rsp_file_checked', 'monitor:argv_compared', 'monitor:test_argv_compared', 'monitor:elem_roundtrip', 'monitor:exe_pickle_checked',
               'monitor:exe_cmdline_checked', 'monitor:rsp_decoded', 'monitor:compile_slot_compared', 'monitor:link_slot_compared',
               'monitor:env_compared', 'monitor:stdin_compared', 'monitor:contract_quote_arg', 'monitor:contract_rsp_quote',
               'monitor:contract_ninja_quote', 'monitor:buildargv_calibrated_agree', 'monitor:literal_calibration',
